@@ -40,6 +40,7 @@ int cmd_check(const std::string &property, const std::string &tier);
 int cmd_replay(const std::string &path);
 int cmd_run_one(const std::string &engine, const std::string &property, uint64_t seed, int tier, bool trace);
 int cmd_selftest(const std::string &what);
+int cmd_run_at(const std::string &engine, const std::string &property, uint64_t index);
 int cmd_find(const std::string &engine, const std::string &property, const std::string &rule, const std::string &key, uint64_t nseeds);
 
 std::string verif_dir();
